@@ -348,6 +348,15 @@ IGN = "src/linter_config/ignore.py::"
 LDR = "src/linter_config/loader.py::"
 
 
+def _x_cwd(ex, args, kwargs, lineno):
+    """Path.cwd(): the working directory (same uninterpreted constant as contracts/c20_config_tool.py registers)."""
+    from pyvc.ty import VOpaque
+    return VOpaque(z3.Const("uf.cwd", PathT.sort()), PathT)
+
+
+EXTERNALS.setdefault("pathlib.Path.cwd", _x_cwd)
+
+
 @contract(REG + "RuleRegistry.__init__", props=["C07", "C10"], types=dict(self=RegistryT), modifies=["self.gs"],
           assumed="plug-in layer: a new registry holds no rule objects yet; its ghost state is the constant fresh_rule_state()")
 class RuleRegistryInit:
@@ -372,16 +381,28 @@ def project_config_loadable(root):
     return loadable(path_div(root, ".thailint.yaml")) and loadable(path_div(root, ".thailint.json"))
 
 
-@contract(O + "Orchestrator.__init__", no_selftest=True, props=["C07", "C06", "C10"],
+@contract(LDR + "LinterConfigLoader.load~c06", props=["C06", "C07"], types=dict(self=LoaderT, config_path=PathT), returns=Dict,
+          raises=["ConfigParseError", "Exception"], no_selftest=True,
+          assumed="RAISE-SET view for ARBITRARY file contents (the verified contract in contracts/c05_parse.py assumes a "
+                  "mapping document): reading a configuration file yields some dict or fails with ConfigParseError (syntax), "
+                  "OSError (directory / unreadable), UnicodeDecodeError (not UTF-8), AttributeError (top level not a "
+                  "mapping) -- over-approximated as: any Exception. No output, no exit")
+class LoaderLoadAnyContent:
+    def ensures(result):
+        return True
+
+
+@contract(O + "Orchestrator.__init__", no_selftest=True, props=["C07", "C06", "C10"], callee_view="c06",
           types=dict(self=OrchInitT, project_root=Opt(PathT), config=Opt(Dict), config_path=PathT),
-          raises=["ConfigParseError", "OSError"],
+          raises=["Exception"],
           modifies=["self.project_root", "self.registry", "self.ignore_parser", "self.config", "self._rules_discovered",
                     "self.config_loader"],
           inline=[LDR + "LinterConfigLoader.__init__"])
 class OrchestratorInit:
     def requires(project_root, config):
-        # (every caller passes a project root; the Path.cwd() default is not covered)
-        return project_root is not None and (config is not None or project_config_loadable(project_root))
+        # (every caller passes a project root; the Path.cwd() default is not covered). No assumption on the contents
+        # of the project's configuration files: discovery goes through the raise-set view LinterConfigLoader.load~c06
+        return project_root is not None
 
     def ensures_a_given_configuration_is_used_as_is(self, config):
         # property text (C07): the workers lint "the same inputs" with the parent's settings -- a configuration passed to
@@ -482,6 +503,34 @@ try:
                 bad.append({"workers": workers, "files": n, "config": cfg, "sequential": len(seq), "parallel": len(par),
                             "only_sequential": [json.loads(x)["file_path"] + ":" + json.loads(x)["rule_id"] for x in seq if x not in par][:5],
                             "only_parallel": [json.loads(x)["file_path"] + ":" + json.loads(x)["rule_id"] for x in par if x not in seq][:5]})
+    # "... and the same exit code": a run that the sequential mode cannot perform (a linter rejects its configuration:
+    # one invalid value per linter family, taken from the documented constraints) must end the same way in parallel
+    def outcome(fn):
+        try:
+            return ["violations", sorted(key(v) for v in fn() if not v.rule_id.startswith(("dry.", "stringly-typed")))]
+        except Exception as e:  # noqa
+            return ["error", "ValueError" if isinstance(e, ValueError) else "other", str(e)]
+    bad_regex = "([unclosed"
+    INVALID = [
+        {"nesting": {"max_nesting_depth": 0}}, {"nesting": {"max_nesting_depth": -3}},
+        {"srp": {"max_methods": 0}}, {"srp": {"max_loc": -1}},
+        {"dry": {"enabled": True, "min_duplicate_lines": 0, "cache_enabled": False}},
+        {"dry": {"enabled": True, "min_duplicate_tokens": 0, "cache_enabled": False}},
+        {"magic-numbers": {"max_small_integer": -1}},
+        {"file-placement": {"global_deny": [{"pattern": bad_regex, "reason": "r"}]}},
+        {"file-placement": {"global_patterns": {"allow": [bad_regex]}}},
+        {"file-placement": {"directories": {"src": {"deny": [{"pattern": bad_regex, "reason": "r"}]}}}},
+        {"stringly-typed": {"enabled": True, "min_occurrences": 0}}, {"stringly-typed": {"enabled": True, "min_values_for_enum": 0}},
+        {"collection-pipeline": {"min_continues": 0}}, {"method-property": {"max_body_statements": -1}},
+    ]
+    for cfg in INVALID:
+        fs = files[:5]
+        seq = outcome(lambda: orchestrator(tmp, cfg).lint_files(list(fs)))
+        par = outcome(lambda: orchestrator(tmp, cfg).lint_files_parallel(list(fs), max_workers=2))
+        cases.append([2, 5, seq[0]])
+        if seq != par:
+            bad.append({"workers": 2, "files": 5, "config": cfg, "sequential": seq[:3] if seq[0] == "error" else [seq[0], len(seq[1])],
+                        "parallel": par[:3] if par[0] == "error" else [par[0], len(par[1])]})
 finally:
     shutil.rmtree(tmp, ignore_errors=True)
 print("RESULT=" + json.dumps({"cases": cases, "bad": bad}))
@@ -496,7 +545,9 @@ def c07_pool_bounded(ctx):
     (12 distinct Python files with per-file findings, a project-level .thailint.yaml, an empty and a non-empty explicit
     configuration) for workers 1..3 and every file count from just below the sequential-fallback threshold (2 x workers)
     to past 3 x workers -- multiples and non-multiples of the worker count -- and compares the multisets of violations
-    (every field). Cross-file rules are excluded (known finding C07-parallel-cross-file)."""
+    (every field). Cross-file rules are excluded (known finding C07-parallel-cross-file). It also compares the OUTCOME
+    (violations, or the class and message of the error that ends the run) for 14 configurations with one invalid value
+    per linter family: a run the sequential mode refuses must be refused identically by the pool."""
     import json
     import os
     import subprocess
@@ -518,6 +569,105 @@ def c07_pool_bounded(ctx):
                  "model_inputs": {"stderr": (p.stderr or "")[-1500:]}, "ms": round((time.time() - t0) * 1000)}]
     bad = res["bad"]
     return [{"name": name, "kind": "bounded", "verdict": "passed" if not bad else "refuted", "tool": "cpython differential",
-             "budget": "workers 1..3 x file counts 2w-1 .. 3w+1, 2 configurations", "cases": len(res["cases"]),
+             "budget": "workers 1..3 x file counts 2w-1 .. 3w+1, 2 configurations; 14 invalid configurations", "cases": len(res["cases"]),
              "note": "" if not bad else f"parallel != sequential: {bad[:2]}", "witness_confirmed": bool(bad),
              "model_inputs": {"disagreements": bad} if bad else None, "ms": round((time.time() - t0) * 1000)}]
+
+
+# ------------------------------------------------------------------------------------------ exceptions across the process boundary
+_EXC_PICKLE = r'''
+import ast, importlib, inspect, json, os, pickle, pkgutil, sys
+repo = os.environ["VERIF_REPO"]
+sys.path.insert(0, repo)
+import builtins
+BUILTIN_EXC = {n for n, o in vars(builtins).items() if isinstance(o, type) and issubclass(o, BaseException)}
+# 1. syntactically: every class under src/ whose bases look like exception classes (fixed point over names)
+declared = {}
+trees = []
+for root, _, names in os.walk(os.path.join(repo, "src")):
+    for n in names:
+        if n.endswith(".py"):
+            path = os.path.join(root, n)
+            try:
+                trees.append((os.path.relpath(path, repo), ast.parse(open(path, encoding="utf-8").read())))
+            except SyntaxError:
+                pass
+exc_names = set(BUILTIN_EXC)
+changed = True
+while changed:
+    changed = False
+    for rel, tree in trees:
+        for c in ast.walk(tree):
+            if isinstance(c, ast.ClassDef):
+                bases = {b.id if isinstance(b, ast.Name) else getattr(b, "attr", "") for b in c.bases}
+                if bases & exc_names and c.name not in exc_names:
+                    exc_names.add(c.name)
+                    changed = True
+                if bases & exc_names:
+                    declared[f"{rel[:-3].replace('/', '.')}.{c.name}"] = rel
+# 2. natively: import, build one instance per class from its constructor signature, round-trip it through pickle
+found, out = {}, []
+import src
+for m in pkgutil.walk_packages(src.__path__, "src."):
+    try:
+        mod = importlib.import_module(m.name)
+    except BaseException:
+        continue
+    for n, c in list(vars(mod).items()):
+        if inspect.isclass(c) and issubclass(c, BaseException) and c.__module__ == mod.__name__:
+            found[f"{c.__module__}.{c.__qualname__}"] = c
+for name in sorted(set(declared) | set(found)):
+    c = found.get(name)
+    if c is None:
+        out.append({"cls": name, "ok": None, "why": "declared in the source but not importable as a module-level class"})
+        continue
+    try:
+        try:
+            sig = inspect.signature(c)
+        except ValueError:
+            sig = None  # no constructor of its own: Exception's (*args)
+        params = [] if sig is None else [p for p in sig.parameters.values()
+                                          if p.kind in (p.POSITIONAL_ONLY, p.POSITIONAL_OR_KEYWORD) and p.default is p.empty]
+        args = [f"value{i}" for i, _ in enumerate(params)] or ["message"]
+        e = c(*args)
+    except BaseException as ex:
+        out.append({"cls": name, "ok": None, "why": f"cannot construct: {ex!r}"[:200]})
+        continue
+    try:
+        e2 = pickle.loads(pickle.dumps(e))
+        same = type(e2) is type(e) and e2.args == e.args and str(e2) == str(e) and vars(e2) == vars(e)
+        out.append({"cls": name, "ok": bool(same), "why": "" if same else f"round trip changed the exception: {e!r} -> {e2!r}"[:200]})
+    except BaseException as ex:
+        out.append({"cls": name, "ok": False, "why": f"pickle round trip fails: {ex!r}"[:300], "args": args})
+print("RESULT=" + json.dumps(out))
+'''
+
+
+@custom("c07-exceptions-cross-the-process-boundary", props=["C07"])
+def c07_exception_pickling(ctx):
+    """Errors travel from a worker to the parent by pickling (concurrent.futures): an exception class whose constructor
+    signature does not match what it stores in `.args` cannot be rebuilt in the parent -- the pool breaks and the
+    parallel run no longer ends like the sequential one. Function contracts cannot see this (the pool is trusted), so
+    the obligation is checked per class: every exception class defined under src/ (found syntactically, then imported)
+    is instantiated from its constructor signature and must survive pickle.loads(pickle.dumps(e)) unchanged (type, args,
+    message, attributes). One obligation per class; a class that cannot be imported / constructed is UNDECIDED."""
+    import json
+    import os
+    import subprocess
+    import sys
+    p = subprocess.run([sys.executable, "-c", _EXC_PICKLE], capture_output=True, text=True, timeout=600,
+                       env=dict(os.environ, VERIF_REPO=ctx["repo"], PYTHONWARNINGS="ignore"), cwd="/tmp")
+    res = None
+    for line in p.stdout.splitlines():
+        if line.startswith("RESULT="):
+            res = json.loads(line[7:])
+    if res is None:
+        return [{"name": "c07-exceptions-cross-the-process-boundary/classes", "kind": "structural", "verdict": "unknown", "solver": "cpython",
+                 "ms": 0.0, "note": "enumeration failed: " + (p.stderr or p.stdout)[-400:]}]
+    obs = [{"name": "c07-exceptions-cross-the-process-boundary/classes", "kind": "structural", "solver": "ast+cpython", "ms": 0.0,
+            "verdict": "discharged" if len(res) >= 1 else "refuted", "note": f"{len(res)} exception classes defined under src/"}]
+    for r in res:
+        obs.append({"name": f"c07-exceptions-cross-the-process-boundary/{r['cls']}", "kind": "structural", "solver": "cpython pickle round trip",
+                    "ms": 0.0, "verdict": "discharged" if r["ok"] else ("unknown" if r["ok"] is None else "refuted"), "note": r["why"],
+                    "witness_confirmed": r["ok"] is False, "model_inputs": {"class": r["cls"], "reason": r["why"]} if r["ok"] is False else None})
+    return obs
